@@ -245,13 +245,46 @@ func extractBlockMgr() {
 	lowers := false
 	if rb == nil {
 		fail("blockmanager.go: method blockManager.rollBackToHeight")
-	} else if i := findIf(rb.Body, "uint32(bs.Height) <= regHeight"); i != nil {
-		body := src(i.Body)
-		a := strings.Index(body, "b.newFilterHeadersMtx.Lock()")
-		m := strings.Index(body, "b.filterHeaderTip = ")
-		u := strings.Index(body, "b.newFilterHeadersMtx.Unlock()")
-		r := strings.Index(body, "RollbackLastBlock(")
-		lowers = r >= 0 && a > r && m > a && u > m && strings.Contains(body, "b.filterHeaderTipHash = ")
+	} else {
+		// the `if` whose body rolls the filter-header store back (found by that call, not by the
+		// names of the locals in its condition): inside it, in this order, the filter store's
+		// RollbackLastBlock, the mutex, the two assignments to the in-memory tip, the unlock
+		var blk *ast.BlockStmt
+		ast.Inspect(rb.Body, func(x ast.Node) bool {
+			if i, ok := x.(*ast.IfStmt); ok && blk == nil {
+				for _, c := range calls(i.Body) {
+					if c.name == "b.cfg.RegFilterHeaders.RollbackLastBlock" {
+						blk = i.Body
+					}
+				}
+			}
+			return blk == nil
+		})
+		if blk != nil {
+			var r, a, u, m, mh token.Pos = -1, -1, -1, -1, -1
+			for _, c := range calls(blk) {
+				switch {
+				case c.name == "b.cfg.RegFilterHeaders.RollbackLastBlock" && r < 0:
+					r = c.pos
+				case c.name == "b.newFilterHeadersMtx.Lock" && a < 0:
+					a = c.pos
+				case c.name == "b.newFilterHeadersMtx.Unlock" && u < 0:
+					u = c.pos
+				}
+			}
+			ast.Inspect(blk, func(x ast.Node) bool {
+				if as, ok := x.(*ast.AssignStmt); ok && len(as.Lhs) == 1 {
+					switch src(as.Lhs[0]) {
+					case "b.filterHeaderTip":
+						m = as.Pos()
+					case "b.filterHeaderTipHash":
+						mh = as.Pos()
+					}
+				}
+				return true
+			})
+			lowers = r >= 0 && a > r && m > a && mh > a && u > m && u > mh
+		}
 	}
 	// ... and removes the block header from the store BEFORE it announces the block as disconnected
 	removeFirst := false
